@@ -78,6 +78,9 @@ EXTRA_SRC = {
     "x_objproto": "<*_proto_ = 1*>", "x_objnullproto": "<*_proto_ = NULL, a = 1*>", "x_mapmixed": "<<<1 => 2, 'a' => 3>>>",
     "x_sbig": "'1' * 5000",
     "x_ldup": "[1, 1, 2]", "x_sdup": "'aab'", "x_setnested": "<<[1], [2]>>",      # duplicates; collections as members
+    # the host's streams as values; a decimal at the edge of the range with a digit count left of the point
+    "x_stdout": "stdout", "x_stdin": "stdin", "x_console": "console",
+    "x_dmax": "decimal('17' + '0' * 307)", "x_ineg308": "-308",
     "x_ihuge": "1" + "0" * 400,          # an int beyond the range of a decimal
 }
 # round 3: functions that answer properly when first called and improperly afterwards (each case builds
@@ -445,6 +448,7 @@ def _init_worker(sandbox):
     warnings.simplefilter("ignore")      # FutureWarning of re.compile on odd pattern texts
     _DEVNULL = open(os.devnull, "w")
     sys.stdout = _DEVNULL
+    sys.stdin = open(os.devnull)         # the interpreters' `stdin` value: an empty stream, never the terminal
     if sandbox:
         # one private directory per worker process; the programs on PATH are shared
         os.environ["PATH"] = os.path.join(sandbox, "bin")
